@@ -15,7 +15,7 @@ from pathlib import Path
 OUTPUTS = ["C11_tables.v"]
 HERE = Path(__file__).resolve().parent
 
-DESTS = {"defines": "DDef", "include_paths": "DPath", "include_files": "DFile"}
+DESTS = {"defines": "DDef", "include_paths": "DPath", "system_include_paths": "DSys", "include_files": "DFile"}
 
 
 def coq_str(s: str) -> str:
@@ -146,6 +146,20 @@ def generate(repo: Path):
             if len(body) != 2 or not body[0].startswith("log.warning(") or body[1].replace("(", "").replace(")", "") != "args, unrecognized = namespace, []":
                 raise ValueError(f"unexpected ArgumentError handler body {body}")
             caught = True
+
+    # 3a. what the configuration is built from: PreprocessorConfiguration(args.defines.copy(),
+    #     args.include_paths + args.system_include_paths, args.include_files.copy(), pass_name)
+    pcs = [n for n in ast.walk(fn) if isinstance(n, ast.Call) and isinstance(n.func, ast.Name)
+           and n.func.id == "PreprocessorConfiguration"]
+    if len(pcs) != 1 or pcs[0].keywords or len(pcs[0].args) != 4:
+        raise ValueError("expected exactly one PreprocessorConfiguration(defines, include_paths, include_files, pass_name)")
+    got = [ast.unparse(a) for a in pcs[0].args]
+    has_sys = any(d == "DSys" for _, _, d in options)
+    want_paths = ["args.include_paths + args.system_include_paths"] + ([] if has_sys else ["args.include_paths.copy()"])
+    if got[0] != "args.defines.copy()" or got[1] not in want_paths or got[2] != "args.include_files.copy()" \
+            or got[3] != "pass_name":
+        raise ValueError(f"PreprocessorConfiguration is built from {got}; the model assumes defines, include_paths "
+                         "followed by system_include_paths, include_files")
 
     # 3b. parser.error replaced by a function that raises argparse.ArgumentError(None, message)
     error_raises = False
